@@ -134,7 +134,7 @@ func c06URLInvalidEscape(c *core.Check) {
 // first result is a URL token.
 func c06URLAtEOF(c *core.Check) {
 	p := c.Prog
-	r := c.Rule("R14", "consumeUrl at the end of the input: from each comparison of the cursor with the input length from which a url token can still be returned, the side where the input is exhausted (every such comparison decided that way) reaches only returns of a url token — never the bad-url remnants", 5)
+	r := c.Rule("R14", "consumeUrl at the end of the input: from each comparison of the cursor with the input length from which a url token can still be returned, the side where the input is exhausted (every such comparison decided that way) reaches only returns of a url token — never the bad-url remnants", 3)
 	fn := p.Lookup("css/parser.(*tokenizer).consumeUrl")
 	if fn == nil {
 		r.Anchor("css/parser.(*tokenizer).consumeUrl")
